@@ -172,6 +172,36 @@ def _tensor(case, g, R):
     return fs.tensor_from_cellwise(Kc), None
 
 
+def _closed_form(mon, g, k, flux, bf, is_dir, tag=""):
+    """Closed form on K-orthogonal grids: harmonic average of the half transmissibilities
+    A k_nn / d, compared row by row RELATIVE TO THE ROW (a contrast of 1e10 must not hide the
+    low-permeable rows behind the largest entry of the matrix)."""
+    nf = g.num_faces
+    Kc = k.values
+    fi, ci, sg = sps.find(g.cell_faces)
+    nrm = g.face_normals[:, fi] / np.linalg.norm(g.face_normals[:, fi], axis=0)
+    knn = np.einsum("if,ijf,jf->f", nrm, Kc[:, :, ci], nrm)
+    dist = np.abs(np.sum((g.face_centers[:, fi] - g.cell_centers[:, ci]) * nrm, axis=0))
+    half = g.face_areas[fi] * knn / dist
+    inv = np.bincount(fi, weights=1.0 / half, minlength=nf)
+    cnt = np.bincount(fi, minlength=nf)
+    t_ref = 1.0 / inv
+    interior = cnt == 2
+    Fd = flux.toarray()
+    rowmax = np.max(np.abs(Fd), axis=1)
+    mon.count("closed_form_rows_checked" + tag, int(interior.sum()))
+    if interior.any():
+        mon.close("interior_transmissibility_row_relative" + tag,
+                  rowmax[interior] / t_ref[interior], np.ones(int(interior.sum())), 1e-10,
+                  "tpfa-transmissibility-differs-from-harmonic-average" + tag, scale=1.0)
+    dirf = np.zeros(nf, dtype=bool)
+    dirf[bf[is_dir]] = True
+    if dirf.any():
+        mon.close("dirichlet_transmissibility_row_relative" + tag, rowmax[dirf] / t_ref[dirf],
+                  np.ones(int(dirf.sum())), 1e-10,
+                  "tpfa-transmissibility-differs-from-harmonic-average" + tag, scale=1.0)
+
+
 def check(case, mon):
     r = case["grid"]
     g = gg.build(r)
@@ -299,32 +329,8 @@ def check(case, mon):
     if np.any(off > TOL * amax):
         mon.violation("tpfa-positive-offdiagonal", {"max": float(off.max())})
 
-    # (K1b) closed form on K-orthogonal grids: harmonic average of the half
-    # transmissibilities A k_nn / d, compared row by row RELATIVE TO THE ROW (a contrast of
-    # 1e10 must not hide the low-permeable rows behind the largest entry of the matrix)
-    Kc = k.values
-    fi, ci, sg = sps.find(g.cell_faces)
-    nrm = g.face_normals[:, fi] / np.linalg.norm(g.face_normals[:, fi], axis=0)
-    knn = np.einsum("if,ijf,jf->f", nrm, Kc[:, :, ci], nrm)
-    dist = np.abs(np.sum((g.face_centers[:, fi] - g.cell_centers[:, ci]) * nrm, axis=0))
-    half = g.face_areas[fi] * knn / dist
-    inv = np.bincount(fi, weights=1.0 / half, minlength=nf)
-    cnt = np.bincount(fi, minlength=nf)
-    t_ref = 1.0 / inv
-    interior = cnt == 2
-    Fd = flux.toarray()
-    rowmax = np.max(np.abs(Fd), axis=1)
-    mon.count("closed_form_rows_checked", int(interior.sum()))
-    if interior.any():
-        mon.close("interior_transmissibility_row_relative", rowmax[interior] / t_ref[interior],
-                  np.ones(int(interior.sum())), 1e-10,
-                  "tpfa-transmissibility-differs-from-harmonic-average", scale=1.0)
-    dirf = np.zeros(nf, dtype=bool)
-    dirf[bf[is_dir]] = True
-    if dirf.any():
-        mon.close("dirichlet_transmissibility_row_relative", rowmax[dirf] / t_ref[dirf],
-                  np.ones(int(dirf.sum())), 1e-10,
-                  "tpfa-transmissibility-differs-from-harmonic-average", scale=1.0)
+    # (K1b) closed-form transmissibilities
+    _closed_form(mon, g, k, flux, bf, is_dir)
     if case.get("contrast"):
         mon.klass(f"K-contrast:1e{case['contrast']}")
         mon.count("high_contrast_cases")
@@ -359,3 +365,19 @@ def check(case, mon):
         mon.close("trace_linear", tr[bf], p_f[bf], TOL,
                   "tpfa-boundary-pressure-not-exact", scale=pscale)
         mon.count("linear_exactness_checked")
+
+    # the same Tpfa object re-discretizes the same grid OBJECT after its nodes were moved in
+    # place to another tensor spacing (grid adaptation keeps the topology): nothing derived
+    # from the old geometry may survive in the discretization object or the dictionary
+    if r["kind"] in ("cart", "tensor") and dim >= 1:
+        mrng = np.random.default_rng([case["kseed"], 12])
+        for ax in range(dim):
+            old = np.unique(np.round(g.nodes[ax], 12))
+            w = mrng.uniform(0.4, 1.6, old.size - 1)
+            new = old[0] + np.concatenate([[0.0], np.cumsum(w)]) / w.sum() * (old[-1] - old[0])
+            g.nodes[ax] = np.interp(g.nodes[ax], old, new)
+        g.compute_geometry()
+        discr.discretize(g, data)
+        flux2 = sps.csr_matrix(data[pp.DISCRETIZATION_MATRICES]["flow"][discr.flux_matrix_key])
+        _closed_form(mon, g, k, flux2, bf, is_dir, tag=":after-moving-nodes-in-place")
+        mon.count("rediscretized_after_moving_nodes")
